@@ -425,6 +425,129 @@ func genModeStrRaw(r *core.Rand) string {
 }
 
 // ---------------------------------------------------------------------------
+// xattr fault variant: a destination file system with a small xattr value limit
+
+// c13BigXattrSizes are the oversized values of the fault variant; tmpfs (the
+// source) stores them, a block-limited file system such as ext4 rejects them.
+var c13BigXattrSizes = []int{4500, 8000, 20000}
+
+var c13LimitedFS struct {
+	probed bool
+	base   string // "" = none found
+	why    string
+}
+
+// limitedXattrBase looks (once per process) for a directory on a file system
+// that stores small user.*/trusted.* values and ns/negative/far-future
+// mtimes but rejects every oversized value.
+func limitedXattrBase() (string, string) {
+	st := &c13LimitedFS
+	if st.probed {
+		return st.base, st.why
+	}
+	st.probed = true
+	bases := []string{"/var/tmp", "/tmp", "/root"}
+	if v := os.Getenv("VERIF_C13_XFAULT_BASE"); v != "" {
+		bases = strings.Split(v, ":")
+	}
+	for _, base := range bases {
+		// destinations of children that died before their deferred cleanup
+		if stale, _ := filepath.Glob(filepath.Join(base, "verif-c13-*")); len(stale) > 0 {
+			for _, d := range stale {
+				parts := strings.Split(filepath.Base(d), "-")
+				if len(parts) < 4 {
+					continue
+				}
+				if _, err := os.Stat("/proc/" + parts[2]); os.IsNotExist(err) {
+					core.RemoveAllForce(d)
+				}
+			}
+		}
+		d, err := os.MkdirTemp(base, "verif-c13-probe-")
+		if err != nil {
+			st.why = err.Error()
+			continue
+		}
+		ok := func() bool {
+			defer os.RemoveAll(d)
+			f := filepath.Join(d, "f")
+			l := filepath.Join(d, "l")
+			if os.WriteFile(f, nil, 0600) != nil || os.Symlink("x", l) != nil {
+				return false
+			}
+			if unix.Lsetxattr(f, "user.xf", []byte("small"), 0) != nil || unix.Lsetxattr(f, "trusted.xf", []byte("small"), 0) != nil || unix.Lsetxattr(l, "trusted.xf", []byte("small"), 0) != nil || unix.Lsetxattr(d, "user.xf", make([]byte, 40), 0) != nil {
+				st.why = base + ": small xattrs refused"
+				return false
+			}
+			for _, n := range c13BigXattrSizes {
+				for _, k := range []string{"user.xf", "trusted.xf"} {
+					if unix.Lsetxattr(f, k, make([]byte, n), 0) == nil {
+						st.why = fmt.Sprintf("%s stores a %d-byte %s value", base, n, k)
+						return false
+					}
+				}
+			}
+			for _, ns := range tree.Mtimes {
+				if tree.Lutimes(f, ns) != nil {
+					return false
+				}
+				e, err := tree.LstatEntry(f, tree.SnapOpt{NoData: true})
+				if err != nil || e.Mtime != ns {
+					st.why = base + ": mtime granularity/range"
+					return false
+				}
+			}
+			if unix.Mknod(filepath.Join(d, "b"), unix.S_IFBLK|0600, int(unix.Mkdev(7, 0))) != nil || os.Lchown(f, 4000000000, 65534) != nil {
+				st.why = base + ": mknod/chown refused"
+				return false
+			}
+			return true
+		}()
+		if ok {
+			st.base, st.why = base, ""
+			return st.base, ""
+		}
+	}
+	return "", st.why
+}
+
+// xattrProbe tells whether an independent lsetxattr of key=value on a fresh
+// scratch node of the given type is refused by the file system of dir.
+func xattrProbe(dir string, typ byte, key string, val []byte) (refused bool) {
+	d, err := os.MkdirTemp(dir, "xp-")
+	if err != nil {
+		return false
+	}
+	defer os.RemoveAll(d)
+	n := filepath.Join(d, "n")
+	switch typ {
+	case tree.Dir:
+		err = os.Mkdir(n, 0700)
+	case tree.Symlink:
+		err = os.Symlink("x", n)
+	default:
+		err = os.WriteFile(n, nil, 0600)
+	}
+	if err != nil {
+		return false
+	}
+	return unix.Lsetxattr(n, key, val, 0) != nil
+}
+
+type xehCall struct{ Dst, Src, Key string }
+
+func shortLines(ls []string, n int) []string {
+	out := make([]string, len(ls))
+	for i, l := range ls {
+		if len(l) > n {
+			l = l[:n] + fmt.Sprintf("...(%d bytes)", len(l))
+		}
+		out[i] = l
+	}
+	return out
+}
+
+// ---------------------------------------------------------------------------
 // the case
 
 type c13Plan struct {
@@ -439,7 +562,9 @@ type c13Plan struct {
 	Mode     *int   `json:"mode,omitempty"`
 	ModeStr  string `json:"mode_str,omitempty"`
 	Utime    *int64 `json:"utime_ns,omitempty"`
-	Xeh      string `json:"xattr_error_handler"`
+	Xeh      string `json:"xattr_error_handler"`   // nil | allow | strict (recording, returns the error) | record (recording, tolerant)
+	XFault   bool   `json:"xattr_fault,omitempty"` // destination on a file system that rejects the oversized values
+	XKey     string `json:"xattr_fault_key,omitempty"`
 	Notify   bool   `json:"notifier"`
 	Umask    int    `json:"umask"`
 }
@@ -474,6 +599,9 @@ func (p *c13Plan) optCombo() string {
 	if p.Contents {
 		o = append(o, "contents")
 	}
+	if p.XFault {
+		o = append(o, "xfault")
+	}
 	if len(o) == 0 {
 		return "none"
 	}
@@ -489,12 +617,13 @@ func init() {
 		ID:    "C13",
 		Level: "exploration",
 		Rule: "random source trees (adversarial names incl. a 255-byte name, files around the 32KiB boundary, symlinks relative/absolute/dangling/looping, fifos, char and block devices, a few sockets, hard-link groups of regular files and of fifos/char devices, setuid/setgid/sticky, owners {0,1234,65534}, ns/negative/far-future mtimes, user.* xattrs on files and dirs, trusted.* xattrs on symlinks, random metadata on the source root itself, 1/8 of the directories without any execute bit, up to two extra symlinks whose absolute or relative target is an existing entry) are created on disk and copied with fs.Copy into an empty destination root; " +
-			"source = {whole tree, one sub-directory, one file/fifo/device/socket, one symlink}; destination argument = {existing root, new nested path n1/n2/leaf, new nested directory n1/n2/}; flags = FollowLinks on/off, CopyDirContents on/off (directory sources), process umask {0,022,077}; " +
-			"options drawn independently: WithChown (uid,gid from {0,1,1234,65534,4000000000}), Mode (octal incl. special bits) or ModeStr (symbolic: 20 classic forms and a grammar of 1-3 clauses of who-lists x 1-2 operations + - = x subsets of rwx, X (not after '-'), s, t (with who 'a', or alone as +t/-t), permission copies u/g/o), Utime (ns, negative, far future), XAttrErrorHandler {nil, allow, recording-strict}, change notifier on 7/8 of the cases. " +
-			"Oracle: independent lstat/readlink/listxattr/bytes snapshot of the source, re-rooted at the landing path, with the option overrides applied, compared with the snapshot of the destination (type, bytes, symlink target, mode incl. special bits, uid/gid, ns mtime of files, symlinks and directories, xattrs, rdev, link groups recomputed from source inodes inside the copied subset); symbolic modes are evaluated by /bin/chmod on scratch nodes of the same type and original mode; directories created above the target must carry the requested owner and timestamp; the notifier must be called exactly once per non-directory with its leading-slash normalised destination path (calls for directories are counted, not judged). " +
+			"source = {whole tree, one sub-directory, one file/fifo/device/socket, one symlink}; destination argument = {existing root, new nested path n1/n2/leaf, new nested directory n1/n2/}; flags = FollowLinks on/off, CopyDirContents on/off (directory sources), process umask {0,022,077}; in 1/8 of the cases (xattr fault variant) the destination root is a fresh directory on a file system that rejects oversized xattr values (probed at run time: /var/tmp, /tmp, /root or $VERIF_C13_XFAULT_BASE; the source stays on tmpfs), 1-3 entries carry a 4500/8000/20000-byte value of a key K in {user.xf, trusted.xf, user.k1}, at least two other files/dirs/symlinks (and sometimes the source root) carry the SAME key with 0-40 byte values at names sorting before and after the oversized ones, and the handler is AllowXAttrErrors or a recording tolerant handler (7/8) or an aborting one (1/8); " +
+			"options drawn independently: WithChown (uid,gid from {0,1,1234,65534,4000000000}), Mode (octal incl. special bits) or ModeStr (symbolic: 20 classic forms and a grammar of 1-3 clauses of who-lists x 1-2 operations + - = x subsets of rwx, X (not after '-'), s, t (with who 'a', or alone as +t/-t), permission copies u/g/o), Utime (ns, negative, far future), XAttrErrorHandler {nil, allow, recording-strict, recording-tolerant}, change notifier on 7/8 of the cases. " +
+			"Oracle: independent lstat/readlink/listxattr/bytes snapshot of the source, re-rooted at the landing path, with the option overrides applied, compared with the snapshot of the destination (type, bytes, symlink target, mode incl. special bits, uid/gid, ns mtime of files, symlinks and directories, xattrs, rdev, link groups recomputed from source inodes inside the copied subset); symbolic modes are evaluated by /bin/chmod on scratch nodes of the same type and original mode; directories created above the target must carry the requested owner and timestamp; an xattr (entry, key) may be missing in the copy only if the recording handler was called for exactly that destination path and key, or - AllowXAttrErrors - an independent lsetxattr of that key/value on a scratch node of the destination file system is refused (further keys of the same entry after such a tolerated failure are counted, not judged); every handler call must name a copied destination path and carry an error; the notifier must be called exactly once per non-directory with its leading-slash normalised destination path (calls for directories are counted, not judged). " +
 			"non-trivial = Copy returned nil, at least one entry was copied and compared, and the copied subset holds a link group, special file, special mode bit, xattr or symlink, or at least one of chown/mode/modestr/utime is set; distinct by (tree, variant, destination form, option values) fingerprint",
 		Assumptions: []string{
-			"runs as root on a file system with mknod, user.* and trusted.* xattrs (tmpfs under /dev/shm); no xattr operation fails (if the recording handler is ever called, xattrs are not demanded for that case)",
+			"runs as root; source on tmpfs under /dev/shm (mknod, user.* and trusted.* xattrs, values up to 20000 bytes); outside the xattr fault variant the destination is on the same tmpfs and no xattr operation fails",
+			"xattr fault variant: needs a second file system that stores small user.*/trusted.* values, ns/negative/far-future mtimes, device nodes and large uids but refuses 4500..20000-byte xattr values (ext4 does); if none is found the variant is skipped, counted (xfault_variant_skipped_no_limited_fs) and the case runs as an ordinary one; with an aborting (nil/strict) handler a failing Copy is accepted in this variant; small values are kept <= 40 bytes so that the per-inode xattr space of the destination is never the reason of a refusal",
 			"the source is not modified during the copy; source and destination are separate directories on the same file system",
 			"sockets are copied as stubs (code comment): an empty regular file or a socket is accepted, its owner/mode/mtime are still compared",
 			"symbolic modes: /bin/chmod (GNU coreutils) run with umask 0 is the evaluator; where GNU and POSIX/BSD chmod legitimately differ both results are accepted: X after a clause that changed the execute bits (judged on the unmodified or on the current mode), set-id bits of directories not named in the request, and special bits not named in the request that an '=' or a permission copy may or may not clear",
@@ -589,7 +718,7 @@ func c13GenPlan(R *core.Rand, snap *tree.Tree) *c13Plan {
 		}
 		p.Utime = &ns
 	}
-	p.Xeh = []string{"nil", "allow", "strict"}[R.Weighted([]int{3, 1, 2})]
+	p.Xeh = []string{"nil", "allow", "strict", "record"}[R.Weighted([]int{3, 1, 2, 1})]
 	p.Notify = !R.P(1, 8)
 	p.Umask = core.Pick(R, []int{0, 022, 077})
 	return p
@@ -642,10 +771,93 @@ func c13Run(c *core.Ctx) *core.Result {
 			t.Put(le)
 		}
 	}
+	// ---- xattr fault variant (1/8 of the cases): the destination root is put
+	// on a file system that rejects oversized xattr values; the tree gets one
+	// or two entries whose value of key K is oversized and other entries that
+	// carry the SAME key with small values; the handler is tolerant (allow or
+	// recording) in 7/8 of these cases, aborting in the rest
+	xfWant := R.P(1, 8)
+	xfKey := core.Pick(R, []string{"user.xf", "trusted.xf", "user.k1"})
+	xfR := R.Fork()
+	xfault := false
+	xfBase := ""
+	if xfWant {
+		var why string
+		xfBase, why = limitedXattrBase()
+		if xfBase == "" {
+			r.Count("xfault_variant_skipped_no_limited_fs", 1)
+			r.AddSet("xfault_skip_reasons", why)
+		} else {
+			xfault = true
+		}
+	}
+	if xfault {
+		carrier := func(e *tree.Entry) bool {
+			if e.LinkTo != "" || t.GroupOf(e.Path) != "" {
+				return false
+			}
+			if strings.HasPrefix(xfKey, "trusted.") && e.Type == tree.Symlink {
+				return true
+			}
+			return e.Type == tree.File || e.Type == tree.Dir
+		}
+		var cands []int
+		for i := range t.Entries {
+			if carrier(&t.Entries[i]) {
+				cands = append(cands, i)
+			}
+		}
+		core.Shuffle(xfR, cands)
+		setX := func(e *tree.Entry, v []byte) {
+			if e.Xattrs == nil {
+				e.Xattrs = map[string][]byte{}
+			}
+			e.Xattrs[xfKey] = v
+		}
+		nbig := xfR.Range(1, 2)
+		nsmall := 0
+		for k, i := range cands {
+			e := &t.Entries[i]
+			switch {
+			case k < nbig && k < len(cands)-2:
+				setX(e, xfR.Bytes(core.Pick(xfR, c13BigXattrSizes)))
+			case xfR.P(2, 3):
+				setX(e, xfR.Bytes(core.Pick(xfR, []int{0, 1, 7, 40})))
+				nsmall++
+			}
+		}
+		// make sure there is an oversized carrier and two small ones, at
+		// names that sort before, between and after the others
+		dirs := dirsOf(t)
+		addFile := func(name string, v []byte) {
+			d := core.Pick(xfR, dirs)
+			p := joinRel(d, name)
+			if t.Get(p) != nil || len(p) > 900 {
+				return
+			}
+			t.Put(tree.Entry{Path: p, Type: tree.File, Perm: 0644, UID: core.Pick(xfR, o.Owners), GID: core.Pick(xfR, o.Owners), Mtime: core.Pick(xfR, tree.Mtimes), Data: xfR.Bytes(9), Xattrs: map[string][]byte{xfKey: v}})
+		}
+		addFile(core.Pick(xfR, []string{"!big", "Mbig", "zbig"}), xfR.Bytes(core.Pick(xfR, c13BigXattrSizes)))
+		for nsmall < 2 {
+			addFile(core.Pick(xfR, []string{"!small", "Msmall", "zsmall", "~small"}), xfR.Bytes(core.Pick(xfR, []int{1, 7, 40})))
+			nsmall++
+		}
+	}
 	srcDir := filepath.Join(c.Dir, "src")
 	dstDir := filepath.Join(c.Dir, "dst")
 	os.Mkdir(srcDir, 0755)
-	os.Mkdir(dstDir, 0755)
+	if xfault {
+		d, err := os.MkdirTemp(xfBase, fmt.Sprintf("verif-c13-%d-", os.Getpid()))
+		if err != nil {
+			r.Inconclusive = "xfault destination: " + err.Error()
+			return r
+		}
+		dstDir = d
+		defer core.RemoveAllForce(d)
+		os.Chmod(dstDir, 0755)
+	} else {
+		os.Mkdir(dstDir, 0755)
+	}
 	if err := tree.Materialise(srcDir, t); err != nil {
 		r.Inconclusive = "materialise: " + err.Error()
 		return r
@@ -657,6 +869,12 @@ func c13Run(c *core.Ctx) *core.Result {
 	}
 	if R.P(1, 3) {
 		rootMeta.Xattrs = map[string][]byte{"user.root": R.Bytes(6)}
+	}
+	if xfault && xfR.P(1, 3) {
+		if rootMeta.Xattrs == nil {
+			rootMeta.Xattrs = map[string][]byte{}
+		}
+		rootMeta.Xattrs[xfKey] = xfR.Bytes(5)
 	}
 	if err := tree.ApplyMeta(srcDir, &rootMeta); err != nil {
 		r.Inconclusive = "root metadata: " + err.Error()
@@ -673,6 +891,13 @@ func c13Run(c *core.Ctx) *core.Result {
 		return r
 	}
 	p := c13GenPlan(R, snap)
+	if xfault {
+		p.XFault, p.XKey = true, xfKey
+		if p.Variant != "whole" && xfR.P(2, 3) {
+			p.Variant, p.SrcRel, p.Src = "whole", "", core.Pick(xfR, []string{"/", ".", "/."})
+		}
+		p.Xeh = []string{"allow", "record", "strict", "nil"}[xfR.Weighted([]int{7, 7, 1, 1})]
+	}
 
 	// ---- expected source entry (FollowLinks) and landing path
 	srcRel := p.SrcRel
@@ -744,7 +969,7 @@ func c13Run(c *core.Ctx) *core.Result {
 		exp.Sort()
 		regroup(exp)
 	}
-	sample := map[string]any{"plan": p, "landing": landing, "tree": trunc(snap.Lines(), 40), "src_root": rootEnt.String()}
+	sample := map[string]any{"plan": p, "landing": landing, "tree": shortLines(trunc(snap.Lines(), 40), 300), "src_root": shortLines([]string{rootEnt.String()}, 300)[0]}
 	r.Sample = sample
 	r.AddSet("option_combos", p.optCombo())
 	r.AddSet("variants", fmt.Sprintf("%s/%s/follow=%v/contents=%v", p.Variant, p.DstForm, p.Follow, p.Contents))
@@ -769,13 +994,21 @@ func c13Run(c *core.Ctx) *core.Result {
 	if p.Notify {
 		opts = append(opts, fs.WithChangeNotifier(nrec.fn))
 	}
-	xehCalls := 0
+	var xehCalls []xehCall
+	xehNilErr := 0
 	switch p.Xeh {
 	case "allow":
 		opts = append(opts, fs.AllowXAttrErrors)
-	case "strict":
+	case "strict", "record":
+		tolerant := p.Xeh == "record"
 		opts = append(opts, fs.WithXAttrErrorHandler(func(dst, src, key string, err error) error {
-			xehCalls++
+			xehCalls = append(xehCalls, xehCall{dst, src, key})
+			if err == nil {
+				xehNilErr++
+			}
+			if tolerant {
+				return nil
+			}
 			return err
 		}))
 	}
@@ -790,6 +1023,19 @@ func c13Run(c *core.Ctx) *core.Result {
 			r.Count("follow_not_judged_error", 1)
 		}
 		r.FP = ""
+		return r
+	}
+	if xfault {
+		r.Count("xfault_cases", 1)
+	}
+	r.Count("xattr_handler_calls", int64(len(xehCalls)))
+	if xehNilErr > 0 {
+		r.ViolateD("xeh-nil-error", sample, "the xattr error handler was called %d times without an error", xehNilErr)
+	}
+	if cerr != nil && xfault && (p.Xeh == "strict" || p.Xeh == "nil") {
+		// the destination cannot store an oversized value and the handler
+		// does not tolerate it: aborting is the documented outcome
+		r.Count("xfault_aborted_by_intolerant_handler", 1)
 		return r
 	}
 	if cerr != nil {
@@ -922,12 +1168,89 @@ func c13Run(c *core.Ctx) *core.Result {
 			e.LinkTo = ""
 		}
 	}
-	if xehCalls > 0 {
-		r.Count("xattr_handler_calls", int64(xehCalls))
+	// ---- xattrs under an error handler: an (entry, key) pair may be missing
+	// in the destination ONLY if the failure of exactly that pair was
+	// tolerated: the recording handler was called with that destination path
+	// and key, or (non-recording AllowXAttrErrors) an independent lsetxattr of
+	// that key/value on a scratch node of the destination file system is
+	// refused. One more shape is not judged and counted apart: the remaining
+	// keys of the SAME entry after a tolerated failure (copyXAttrs returns
+	// after the first failing key of an entry). Every other xattr is demanded.
+	called := map[xehCall]bool{}   // (dst, key)
+	calledDst := map[string]bool{} // dst
+	for _, cl := range xehCalls {
+		called[xehCall{Dst: filepath.Clean(cl.Dst), Key: cl.Key}] = true
+		calledDst[filepath.Clean(cl.Dst)] = true
 	}
-	mask := tree.Mask{Perm: true, Owner: true, Mtime: true, DirMtime: true, Xattrs: xehCalls == 0, DirXattrs: xehCalls == 0, SymlinkXattrs: xehCalls == 0, SpecialXattrs: xehCalls == 0, Links: true, Data: true, Rdev: true, Target: true}
+	probeCache := map[string]bool{}
+	refused := func(typ byte, k string, v []byte) bool {
+		if !xfault || p.Xeh != "allow" {
+			return false
+		}
+		ck := fmt.Sprintf("%c|%s|%d", typ, k, len(v))
+		if res, ok := probeCache[ck]; ok {
+			return res
+		}
+		res := xattrProbe(xfBase, typ, k, v)
+		probeCache[ck] = res
+		r.Count("xattr_independent_probes", 1)
+		return res
+	}
+	dstPathOf := map[string]bool{filepath.Clean(dstDir): true}
+	for i := range exp.Entries {
+		e := &exp.Entries[i]
+		if parentSet[e.Path] {
+			continue
+		}
+		abs := filepath.Join(dstDir, filepath.FromSlash(e.Path))
+		dstPathOf[abs] = true
+		j, ok := gi[e.Path]
+		if !ok || len(e.Xattrs) == 0 {
+			continue
+		}
+		g := &got.Entries[j]
+		anyTolerated := calledDst[abs]
+		if !anyTolerated {
+			for k, v := range e.Xattrs {
+				if refused(e.Type, k, v) {
+					anyTolerated = true
+					break
+				}
+			}
+		}
+		for k, v := range e.Xattrs {
+			if xfault && k == xfKey {
+				if len(v) > 4000 {
+					r.Count("xfault_oversized_pairs_in_copied_set", 1)
+				} else {
+					r.Count("xfault_small_same_key_pairs_in_copied_set", 1)
+				}
+			}
+			if _, has := g.Xattrs[k]; has {
+				continue // present: value compared by the diff below
+			}
+			switch {
+			case called[xehCall{Dst: abs, Key: k}] || refused(e.Type, k, v):
+				r.Count("xattr_pairs_missing_and_tolerated", 1)
+				delete(e.Xattrs, k)
+			case anyTolerated:
+				r.Count("xattr_pairs_missing_after_tolerated_failure_on_same_entry_not_judged", 1)
+				delete(e.Xattrs, k)
+			default:
+				r.ViolateD("xattr-lost-without-tolerated-failure", sample, "%q: xattr %q (%d bytes) is missing in the copy although no failure of this entry was reported to/tolerated by the xattr error handler (handler=%s, %d handler calls in this copy)", e.Path, k, len(v), p.Xeh, len(xehCalls))
+				delete(e.Xattrs, k)
+			}
+		}
+	}
+	for _, cl := range xehCalls {
+		if !dstPathOf[filepath.Clean(cl.Dst)] {
+			r.ViolateD("xeh-unexpected-path", sample, "xattr error handler called with destination %q, which is not the destination path of a copied entry", cl.Dst)
+		}
+	}
+	mask := tree.Mask{Perm: true, Owner: true, Mtime: true, DirMtime: true, Xattrs: true, DirXattrs: true, SymlinkXattrs: true, SpecialXattrs: true, Links: true, Data: true, Rdev: true, Target: true}
 	diffs := tree.Diff(exp, got, mask)
 	if len(diffs) > 0 {
+		diffs = shortLines(diffs, 700)
 		r.ViolateD("copy-diverged", map[string]any{"diffs": diffs, "case": sample}, "destination differs from the source under the statement's mask (%s %s -> %s, %s):\n%s", p.Variant, p.Src, p.Dst, p.optCombo(), strings.Join(trunc(diffs, 8), "\n"))
 	}
 
